@@ -106,8 +106,54 @@ end module um
 """
 
 
+FREE = """
+subroutine kern(n, m, v, w, r)
+  integer, intent(in) :: n, m
+  real, intent(inout) :: v(:)
+  real, intent(inout) :: w({wdecl})
+  real, intent(out) :: r(3)
+  if (ubound(v, 1) < n) then
+    call abor1('v too small')
+  end if
+  if (ubound(w, 1) < n .or. ubound(w, 2) < m) then
+    call abor1('w too small')
+  end if
+  r(1) = v(n)
+  r(2) = w(1, 1)
+  r(3) = w(n, m)
+  w(1, m) = v(1)
+end subroutine kern
+
+subroutine k(n, m, a, c, r)
+  integer, intent(in) :: n, m
+  real, intent(inout) :: a(n)
+  real, intent(inout) :: c({cdecl})
+  real, intent(out) :: r(3)
+  interface
+    subroutine kern(n, m, v, w, r)
+      integer, intent(in) :: n, m
+      real, intent(inout) :: v(:)
+      real, intent(inout) :: w({wdecl})
+      real, intent(out) :: r(3)
+    end subroutine kern
+  end interface
+  call kern(n, m, a, c, r)
+end subroutine k
+
+subroutine abor1(msg)
+  character(len=*), intent(in) :: msg
+  print *, msg
+  stop 1
+end subroutine abor1
+"""
+
+
 def cases():
     out = []
+    for nm, wdecl, cdecl in (('plain', ':, :', 'n, m'), ('lower-bound-zero', '0:, :', '0:n, m'), ('lower-bound-second-dim', ':, -1:', 'n, -1:m')):
+        src = FREE.format(wdecl=wdecl, cdecl=cdecl)
+        out.append(Case(f'ubound/free-subroutine-{nm}', src, 'k', [{'n': 2, 'm': 2}, {'n': 3, 'm': 2}],
+                        lint_fix(['DynamicUboundCheckRule'], src), 'lint-fix', must_change=False))
     out.append(Case('operators/all-forms', OPS, 'k', [{}], lint_fix(['Fortran90OperatorsRule'], OPS), 'lint-fix', must_change=False))
     out.append(Case('operators/mixed-case-continuation', MIXED, 'k', [{'n': 3}, {'n': 4}], lint_fix(['Fortran90OperatorsRule'], MIXED), 'lint-fix', must_change=False))
     out.append(Case('ubound/assumed-shape-checks', UBOUND, 'k', [{'n': 2, 'm': 2}, {'n': 3, 'm': 2}], lint_fix(['DynamicUboundCheckRule'], UBOUND), 'lint-fix', must_change=False))
